@@ -6,6 +6,7 @@
 -/
 import OpmVerif.Proofs.Smry
 import OpmVerif.Proofs.SmryFmt
+import OpmVerif.Proofs.ExtESmry
 
 namespace OpmVerif.Props.C10
 open OpmVerif.Ecl OpmVerif.Smry
@@ -55,7 +56,30 @@ theorem write_read_series_formatted (steps : List SmryFmt.MiniStep) (hwf : ∀ m
         steps (SmryFmt.paramsOf ds) :=
   SmryFmt.series_roundtrip steps hwf prev
 
+/-- **ESMRY container**: the position `ExtESmry::load_esmry` computes for vector `k`
+(`rstep_offset + sizeOnDisk(REAL)·k + 2·sizeOnDisk(INTE) + 2·24 + 24·k`, regenerated from the
+source on every run) is the first byte of the header of `V<k>` in what the writer lays out
+behind RSTEP — for every number of time steps (any number of 1000-value record blocks), every
+number of vectors, every `k`, whatever precedes RSTEP. -/
+theorem esmry_vector_offset (nm : Nat → Bytes) (hnm : ∀ k, (nm k).length = 8) (pre : Bytes) (n : Nat)
+    (rstep tstep : List Bytes) (vs : List (List Bytes))
+    (hr : rstep.length = n ∧ ∀ e ∈ rstep, e.length = 4) (ht : tstep.length = n ∧ ∀ e ∈ tstep, e.length = 4)
+    (hv : ∀ v ∈ vs, v.length = n ∧ ∀ e ∈ v, e.length = 4) (k : Nat) (hk : k < vs.length) :
+    ∃ B, (pre ++ encodeFile ({ name := ExtESmry.rstepName, ty := .inte, elems := rstep } ::
+          { name := ExtESmry.tstepName, ty := .inte, elems := tstep } :: ExtESmry.vecArrsN nm 0 vs)).drop
+            (ExtESmry.vecPos pre.length n k) =
+        encodeArr { name := nm k, ty := .real, elems := vs[k] } ++ B :=
+  ExtESmry.vec_at_pos nm hnm pre n rstep tstep vs hr ht hv k hk
+
+/-- The writer emits RSTEP, TSTEP and the vectors last and in this order (array order of
+`ExtSmryOutput::write`, regenerated from the source). -/
+theorem esmry_write_order :
+    Gen.ExtESmrySeek.writeOrder.drop (Gen.ExtESmrySeek.writeOrder.length - 3) = ["RSTEP", "TSTEP", "V*"] := by
+  decide
+
 /-! Non-vacuity -/
+
+example : ExtESmry.vecPos 219 2500 3 = 219 + 2 * (24 + 10024) + 3 * (24 + 10024) := by decide +kernel
 
 def fmtStep (seq id : Nat) : SmryFmt.MiniStep :=
   { seq := seq, id := id,
